@@ -17,6 +17,9 @@ META = {
     "assumptions": ["finite floats as reals"],
 }
 
+from engine import monitor as _monitor          # noqa: E402
+META["audit"] = lambda: _monitor.audit(('H7',))
+
 
 def ob_generate(n, mode):
     def f():
